@@ -42,6 +42,15 @@ func drivers(quick bool) []conc.Driver {
 		s := s
 		ds = append(ds, conc.Driver{Name: s.Name(), Cfg: cfg, Mk: func() vrt.Run { return s.Mk() }, Fallback: []int{0, 1, 2, 3, 4, 5, 6}})
 	}
+	// many runs (the size ladder of the run list): 257 chunks of one value; the schedules without
+	// preemption only (every choice of who goes on when the running thread blocks or ends), race oracle on
+	{
+		s := mdrv.Scenario{Chunk: 1, Concurrent: true, Cycles: []int{257}}
+		cfg0 := cfg
+		cfg0.PreemptBound = 0
+		cfg0.Horizon = 400000
+		ds = append(ds, conc.Driver{Name: s.Name() + "-nopreempt", Cfg: cfg0, Mk: func() vrt.Run { return s.Mk() }})
+	}
 	return ds
 }
 
